@@ -1,7 +1,7 @@
 """Shared flow for the checks whose oracle runs inside the `prog` job (C01, C05,
 C08): seeded programs x flavours x schedules; violations come back in the
 job's `viol` list; crashes (sanitizer, signal, timeout) are findings too."""
-import random
+import os, random, time
 import simdrv, gen
 from .base import Check, key_str
 
@@ -28,7 +28,7 @@ class ProgCheck(Check):
         name, _, cfg = arm
         ops = gen.gen_program(rng, cfg["mix"], rng.randint(*cfg["nops"]), cfg.get("size", "small"), cfg.get("seed_ops"))
         fl = rng.choice(cfg["flavours"])
-        args = {"prog": gen.prog_text(ops), self.flag: 1, "fp": 0, "obsseed": rng.randrange(1 << 30)}
+        args = {"prog": gen.prog_text(ops), self.flag: 1, "fp": 0, "obsseed": rng.randrange(1 << 30), "cap": 4000000}
         args.update(cfg.get("extra_args", {}))
         if fl.startswith("par"):
             args.update({"W": rng.choice(self.par_W), "stay": rng.choice([0, 30, 60, 85, 95]), "own": rng.choice([30, 70, 95]),
@@ -68,14 +68,23 @@ class ProgCheck(Check):
             weights = [a[1] for a in arms]
             jobs = [self.job_for(rng, rng.choices(arms, weights)[0]) for _ in range(96)]
             jobs.sort(key=lambda j: -len(j["args"]["prog"]) if j["arm"].startswith("big") else 0)
+            t_round = time.time()
             res = self.pool.run_all(jobs, deadline=self.deadline)
+            if os.environ.get("VERIF_DEBUG"):
+                slow = sorted(((r.get("wall", 0), j["arm"], j["flavour"]) for j, r in zip(jobs, res) if r and not r.get("skipped")), reverse=True)[:4]
+                print("[debug] round of %d jobs took %.1fs; slowest: %s" % (len(jobs), time.time() - t_round, slow), flush=True)
             for j, r in zip(jobs, res):
                 if r.get("skipped"):
                     continue
+                if not r["ok"] and r.get("timeout"):
+                    # termination is not this property's subject (C09 owns "loops forever"): a run that
+                    # exceeds its wall-clock allowance under the simulator is inconclusive, not a finding
+                    stats["timeouts"] += 1
+                    if os.environ.get("VERIF_DEBUG"):
+                        print("[debug] TIMEOUT %s %s" % (j["flavour"], simdrv.fmt_args(j["args"])), flush=True)
+                    continue
                 if not r["ok"]:
                     stats["crashes"] += 1
-                    if r.get("timeout"):
-                        stats["timeouts"] += 1
                     key = self.crash_key(j, r)
                     self.add_finding(key, "worker died running program [%s] in %s: %s" % (j["args"]["prog"][:300], j["flavour"], simdrv.crash_summary(r)),
                                      {"property": self.prop, "flavour": j["flavour"], "kind": j["kind"], "args": j["args"], "crash": True})
